@@ -165,6 +165,7 @@ class Shard:
         self.report = None
         self.journal = None
         self.timed_out = False
+        self.stalled = None
         self.wall = 0.0
 
 
@@ -182,8 +183,11 @@ def _drain(pipe, shard, which):
             shard.err_tail = (shard.err_tail + chunk)[-4000:]
 
 
+STALL_S = {"dbg": 40, "rel": 40, "asan": 120, "tsan": 120, "miri": 600}
+
+
 def run_shards(tag, prop, tier, seed, rundir, nshards=None, scale=None, time_cap=None, watchdog=600,
-               extra_args=None, wrap=None, cwd=None):
+               extra_args=None, wrap=None, cwd=None, stall_s=None):
     """Run all shards of one (build, property, tier) in parallel; return the list of Shard objects."""
     cmd, _ = build(tag)
     nshards = nshards or NSHARDS
@@ -212,16 +216,41 @@ def run_shards(tag, prop, tier, seed, rundir, nshards=None, scale=None, time_cap
         th2.start()
         procs.append((s, p, th1, th2, t0))
     deadline = time.time() + watchdog
-    for s, p, th1, th2, t0 in procs:
-        try:
-            p.wait(timeout=max(1, deadline - time.time()))
-        except subprocess.TimeoutExpired:
-            s.timed_out = True
+    # progress monitor: a worker whose journal (the case it is executing) has not changed for
+    # `stall` seconds is stuck inside one case; it is stopped and the case is examined alone
+    stall = stall_s if stall_s is not None else (STALL_S.get(tag, 60))
+    last = {s.i: (None, time.time()) for s in shards}
+    live = {s.i: (s, p) for s, p, _, _, _ in procs}
+    while live:
+        time.sleep(0.25 if time.time() - min(t0 for _, _, _, _, t0 in procs) < 5 else 1.0)
+        nowt = time.time()
+        for i in list(live):
+            s, p = live[i]
+            if p.poll() is not None:
+                del live[i]
+                continue
             try:
-                os.killpg(p.pid, signal.SIGKILL)
-            except ProcessLookupError:
-                pass
-            p.wait()
+                cur = open(s.journal_path).read(64)
+            except OSError:
+                cur = None
+            if cur != last[i][0]:
+                last[i] = (cur, nowt)
+            elif cur and nowt - last[i][1] > stall:
+                parts = cur.split()
+                if len(parts) >= 2 and parts[0] != "<done>":
+                    s.stalled = (parts[0], int(parts[1]))
+                s.timed_out = True
+            if nowt > deadline:
+                s.timed_out = True
+            if s.timed_out:
+                try:
+                    os.killpg(p.pid, signal.SIGKILL)
+                except ProcessLookupError:
+                    pass
+                p.wait()
+                del live[i]
+    for s, p, th1, th2, t0 in procs:
+        p.wait()
         th1.join()
         th2.join()
         s.rc = p.returncode
@@ -394,7 +423,7 @@ def fuzz_stage(prop, target, seed, rundir, hard, inconclusive, extra_cov, stages
         sh(list(cmd) + ["--dump-corpus", corpus, "--seed", str(seed)], cwd=HARNESS, timeout=120)
     env = dict(ENV_BASE, VP_FUZZ_PROP=prop, ASAN_OPTIONS="detect_leaks=0:allocator_may_return_null=1")
     args = [binary, corpus, "-fork=%d" % NSHARDS, "-max_total_time=%d" % FUZZ_SECONDS, "-timeout=10", "-max_len=600",
-            "-seed=%d" % seed, "-artifact_prefix=" + art + "/", "-print_final_stats=1"]
+            "-seed=%d" % seed, "-artifact_prefix=" + art + "/", "-print_final_stats=1", "-use_value_profile=1"]
     try:
         p = subprocess.run(args, env=env, cwd=rundir, stdout=subprocess.PIPE, stderr=subprocess.STDOUT, timeout=FUZZ_SECONDS * 3 + 300)
         rc, log = p.returncode, p.stdout.decode("utf-8", "replace")
@@ -494,6 +523,7 @@ def _check(prop, tier, seed, rundir, t_start):
 
     fd_out_total = 0
     fd_err_total = 0
+    confirmed_hangs = []
     for tag, wtier, scale in plan:
         t0 = now()
         try:
@@ -512,6 +542,29 @@ def _check(prop, tier, seed, rundir, t_start):
         for s in shards:
             stage["stdout_octets"] += s.out_bytes
             stage["stderr_octets"] += s.err_bytes
+            if s.timed_out and s.stalled:
+                # stuck inside one case: confirm alone, with a bound that is orders of magnitude
+                # above what any case needs
+                stream, idx = s.stalled
+                if confirmed_hangs:
+                    # one confirmed non-terminating case is enough; the other stuck workers are
+                    # recorded without spending another confirmation bound on each
+                    confirmed_hangs.append((tag, stream, idx))
+                    continue
+                rc2, out2 = run_only(tag, prop, wtier, seed, stream, idx, timeout=90 if tag != "miri" else 900)
+                if rc2 is None:
+                    confirmed_hangs.append((tag, stream, idx))
+                if rc2 is None:
+                    v = {"signature": "%s:hang:%s" % (prop, stream), "build": tag, "stream": stream, "idx": idx, "tier": wtier,
+                         "detail": "case %s:%d made no progress for %d s inside a worker and did not finish within %d s when executed alone in a fresh process (other cases of this stream take micro- to milliseconds): the call does not terminate" % (stream, idx, STALL_S.get(tag, 60), 90 if tag != "miri" else 900),
+                         "witness": {"replay": "./check --replay on this file re-executes the case (it will not return)"}}
+                    if prop in ("C01", "C13"):
+                        hard.append(v)
+                    else:
+                        inconclusive.append("case %s:%d does not terminate (%s build); termination is judged by C01/C13, this check cannot complete" % (stream, idx, tag))
+                else:
+                    inconclusive.append("%s shard %d stalled at %s:%d but the case finished alone (status %s)" % (tag, s.i, stream, idx, rc2))
+                continue
             if s.timed_out:
                 inconclusive.append("%s shard %d hit the wall-clock watchdog (%ds) at %s" % (tag, s.i, wd, s.journal))
                 continue
